@@ -184,6 +184,32 @@ func genC06Scan(t *rapid.T) c06ScanCase {
 			}
 			used[p] = true
 			c.Files = append(c.Files, f)
+			// the neighbour files the extractor opens next to this one (a second database,
+			// locale files, go.sum ...), each valid, empty, truncated, corrupt or absent
+			if f.Base != "" {
+				aux := auxFiles(e, f.Base, p)
+				var names []string
+				for ap, src := range aux {
+					if ap != "etc/os-release" && !strings.HasPrefix(src, "=") && !used[ap] {
+						names = append(names, ap)
+					}
+				}
+				sort.Strings(names)
+				for _, ap := range names {
+					ast := rapid.SampledFrom([]string{"valid", "valid", "empty", "truncated", "corrupt", "absent"}).Draw(t, "aux_state")
+					if ast == "absent" {
+						continue
+					}
+					af := c06File{Extractor: e.Name, Path: ap, State: "aux_" + ast, Base: aux[ap]}
+					if ast == "empty" {
+						af.Base = ""
+					} else {
+						af.Muts = genState(t, e, ast)
+					}
+					used[ap] = true
+					c.Files = append(c.Files, af)
+				}
+			}
 		}
 	}
 	return c
@@ -395,4 +421,98 @@ func TestC06_scan(t *testing.T) {
 	col := ev.Get("C06")
 	col.SetExtra("scan_extractors_offline", len(Registry()))
 	ev.Check(t, col, ev.IntEnv("C06_SCAN_CHECKS", ev.Scale(40, 30)), genC06Scan, propC06Scan)
+}
+
+// TestC06_scanaux enumerates what the random trees reach rarely: every extractor that opens
+// neighbour files next to its own (a second database, locale files, go.sum, included
+// requirement files), with its own file valid and each neighbour valid, empty, truncated at two
+// places or absent, scanned through a real directory root and through a virtual one.
+func TestC06_scanaux(t *testing.T) {
+	col := ev.Get("C06")
+	completed := false
+	defer func() { col.Flush(completed) }()
+	if ev.Replaying() {
+		// scan-leg witnesses are replayed by TestC06_scan (same case type)
+		completed = true
+		t.Skip("replay files of the scan leg are handled by TestC06_scan")
+	}
+	en := ev.NewEnumerator(t, col)
+	shard, shards := ev.Shard()
+	idx := 0
+	defer purgeTrees()
+	for _, e := range Registry() {
+		for _, fx := range e.Fixtures {
+			if fx.Size == 0 || len(fx.Paths) == 0 {
+				continue
+			}
+			p := fx.Paths[0]
+			if len(e.Prod) > 0 && !required(e.New, "zz/"+e.Prod[0].Path, 100, e.Prod[0].Exec) {
+				p = e.Prod[0].Path // anchored format: only its production path is accepted
+			}
+			aux := auxFiles(e, fx.Rel, p)
+			var names []string
+			for ap, src := range aux {
+				if ap != "etc/os-release" && !strings.HasPrefix(src, "=") {
+					names = append(names, ap)
+				}
+			}
+			if len(names) == 0 {
+				continue
+			}
+			// a fixture the extractor gets all the way through (it reads its neighbours then)
+			if data, err := readBase(fx.Rel); err != nil {
+				continue
+			} else if r, err := runExtract(e, fx.Rel, p, data, wallBudget); err != nil || r.Panicked || r.TimedOut || r.Err != nil {
+				continue
+			}
+			sort.Strings(names)
+			if len(names) > 3 {
+				names = names[:3]
+			}
+			osv := int(plugin.OSLinux)
+			switch e.Req.OS {
+			case plugin.OSWindows, plugin.OSMac:
+				osv = int(e.Req.OS)
+			}
+			for _, ap := range names {
+				for _, st := range []string{"valid", "empty", "cut1", "cuthalf", "absent"} {
+					for _, virtual := range []bool{false, true} {
+						idx++
+						if idx%shards != shard {
+							continue
+						}
+						c := c06ScanCase{Leg: "scan", OS: osv, Running: true, Virtual: virtual, DirectFS: !virtual, CwdFile: "none"}
+						c.Files = append(c.Files, c06File{Extractor: e.Name, Path: p, State: "valid", Base: fx.Rel})
+						for _, other := range names {
+							af := c06File{Extractor: e.Name, Path: other, State: "aux_valid", Base: aux[other]}
+							if other == ap {
+								af.State = "aux_" + st
+								switch st {
+								case "absent":
+									continue
+								case "empty":
+									af.Base = ""
+								case "cut1":
+									af.Muts = []Mut{{Op: "trunc", A: 1}}
+								case "cuthalf":
+									if b, err := readBase(aux[other]); err == nil {
+										af.Muts = []Mut{{Op: "trunc", A: len(clamp(b)) / 2}}
+									}
+								}
+							}
+							c.Files = append(c.Files, af)
+						}
+						o, err := ev.Safe(propC06Scan)(c)
+						o.Classes = append(o.Classes, "scanaux", "scanaux:"+e.Name+":"+st)
+						if !en.Report(c, o, err) {
+							completed = true
+							return
+						}
+					}
+				}
+			}
+			break // one fixture per extractor
+		}
+	}
+	completed = true
 }
